@@ -34,3 +34,17 @@ MUTANTS += [
     ("c19_z0_window_wrap", "C19", "ffm_kormann_meixner.py", "        elif kk > 270:\n", "        elif kk > 350:\n"),
     ("c19_mirror_wd", "C19", "ffm_kormann_meixner.py", "new_theta = theta + np.deg2rad(wd) - np.pi * 0.5", "new_theta = -theta + np.deg2rad(wd) - np.pi * 0.5"),
 ]
+
+MUTANTS += [
+    # ---- C09
+    ("c09_psi_sign", "C09", "pbl_model.py", "        5.0 * x,\n", "        -5.0 * x,\n"),
+    ("c09_dzeta", "C09", "pbl_model.py", "    dzeta = zm / n\n", "    dzeta = zm / (n + 1)\n"),
+    ("c09_uv_swapped", "C09", "pbl_model.py", "        u = um / absum * absu\n        v = vm / absum * absu\n\n        K = kap * ustar * z / phi(z / mol) / prsc\n        Kx = Ky = Kz = K\n", "        u = vm / absum * absu\n        v = um / absum * absu\n\n        K = kap * ustar * z / phi(z / mol) / prsc\n        Kx = Ky = Kz = K\n"),
+    ("c09_prsc_ignored", "C09", "pbl_model.py", "        K = kap * ustar * z / phi(z / mol) / prsc\n        Kx = Ky = Kz = K\n", "        K = kap * ustar * z / phi(z / mol)\n        Kx = Ky = Kz = K\n"),
+    ("c09_phi_15", "C09", "pbl_model.py", "np.power(1.0 - 16.0 * x, -0.5, dtype=complex).real", "np.power(1.0 - 15.0 * x, -0.5, dtype=complex).real"),
+    ("c09_log_zm", "C09", "pbl_model.py", "            ustar = absum * kap / (np.log(zm / z0) + psi(zm / mol))", "            ustar = absum * kap / (np.log(zm / z0) - psi(zm / mol))"),
+    ("c09_mostm_swap", "C09", "pbl_model.py", "        Kx = K * v**2 / (u**2 + v**2)\n        Ky = K * u**2 / (u**2 + v**2)\n", "        Kx = K * u**2 / (u**2 + v**2)\n        Ky = K * v**2 / (u**2 + v**2)\n"),
+    ("c09_overshoot_regression", "C09", "pbl_model.py", "    if zeta[-1] >= np.squeeze(aa).item():\n", "    if False:\n"),
+    ("c09_constant_K_uses_z", "C09", "pbl_model.py", "        Km = kap * ustar * zm / prsc\n", "        Km = kap * ustar * zm\n"),
+    ("c09_psi_atan", "C09", "pbl_model.py", "        + 2.0 * np.arctan(xi)\n        - 0.5 * np.pi,", "        + 2.0 * np.arctan(xi)\n        - 0.5 * np.pi + 1e-6,"),
+]
